@@ -151,7 +151,15 @@ fn check_transform_family(f: &gfref::Field, eng: &str, n: u32, delta: usize, len
     let mut checks = 0u64;
     // ---- fft: arbitrary coefficients, first trunc outputs
     let input = Buf::random(count, len64, &mut rng);
-    let slots: Vec<(usize, usize)> = SLOTS.iter().map(|(b, s)| (if *b == usize::MAX { len64 - 1 } else { *b }, *s)).collect();
+    let mut slots: Vec<(usize, usize)> = SLOTS.iter().map(|(b, s)| (if *b == usize::MAX { len64 - 1 } else { *b }, *s)).collect();
+    if len64 > 2 {
+        // long shards: blocks in the middle and on both sides of the 4 KiB / 8 KiB marks as well
+        for b in [len64 * 2 / 3, 63, 64, 127, 128] {
+            if b < len64 - 1 && b > 0 {
+                slots.push((b, (b * 7) % 32));
+            }
+        }
+    }
     let coeffs: Vec<Vec<u16>> = slots.iter().map(|(b, s)| (0..size).map(|j| input.sym(pos + j, *b, *s)).collect()).collect();
     let want: Vec<Vec<u16>> = coeffs.iter().map(|c| rows.iter().map(|row| dot(f, c, row)).collect()).collect();
     for &trunc in truncs {
@@ -431,6 +439,37 @@ pub fn run(ctx: &Ctx, rep: &mut Report) {
         }
     }
     rep.bound("transform", J::s(format!("n <= {nmax}, every truncated_size, every output point; skew offsets: {}", if ctx.thorough() { "all chunk-aligned for n<=8 on nosimd/avx2 and n<=6 on the others, else first 4 and last 2" } else { "first 4 and last 2 chunk-aligned" })));
+    // every size class up to the whole field, every engine (reference on fixed output points)
+    for &eng in &engs {
+        for n in (nmax + 1)..=16 {
+            let size = 1usize << n;
+            let mut pts: Vec<usize> = (0..8).map(|i| (i * 2654435761usize + n as usize) % size).collect();
+            pts.extend([0, 1, size - 1, size / 2]);
+            pts.sort();
+            pts.dedup();
+            let truncs: Vec<usize> = vec![1, 3, size / 2 + 1, size - 1, size];
+            let mut deltas = vec![0usize, 65536 - size];
+            deltas.dedup();
+            for delta in deltas {
+                cases.push(Kv::new().with("what", "transform").with("eng", eng).with("n", n).with("delta", delta).with("len64", 1).with("truncs", fmt_list(&truncs)).with("points", fmt_list(&pts)).with("seed", seed));
+            }
+        }
+    }
+    rep.bound("transform_size_classes", J::s(format!("every n in {}..=16, every engine, skew offsets {{0, 65536-size}}, truncated sizes {{1, 3, size/2+1, size-1, size}}, reference on 12 fixed output points", nmax + 1)));
+    // long shards (above 4 KiB, 8 KiB, 16 KiB; block counts that are no multiple of 64)
+    for &eng in &engs {
+        for n in [2u32, 3, 4] {
+            let size = 1usize << n;
+            for (li, len64) in [65usize, 130, 257].into_iter().enumerate() {
+                let truncs: Vec<usize> = (0..=size).collect();
+                let points: Vec<usize> = (0..size).collect();
+                for delta in [size * li, 65536 - size] {
+                    cases.push(Kv::new().with("what", "transform").with("eng", eng).with("n", n).with("delta", delta).with("len64", len64).with("truncs", fmt_ranges(&truncs)).with("points", fmt_ranges(&points)).with("seed", seed));
+                }
+            }
+        }
+    }
+    rep.bound("transform_long_shards", J::s("n = 2, 3, 4 with shards of 65, 130 and 257 blocks: every truncated_size and output point, symbols checked in the first, last and five inner blocks (both sides of the 4 KiB and 8 KiB marks)"));
     if ctx.thorough() {
         for &eng in &engs {
             for (n, npts) in [(12u32, 64usize), (16, 24)] {
